@@ -55,12 +55,15 @@ SubBag(s, t) == \A x \in Range(s) : Count(s, x) <= Count(t, x)
 
 TrBatchRun ==
     /\ Ev.op = "batch_run" /\ UNCHANGED vars
-    /\ LET P     == ProductV(Grid(Ev.grid))
+    /\ LET P     == TLCEval(ProductV(Grid(Ev.grid)))
            \* the fixture raises in its constructor when d is odd, else in a system at timestep 0 (needs limit > 0)
            fails == \E k \in 1..Len(P) : /\ Ev.reps > 0 /\ Param(P[k], "stop", 3) = Ev.failstop
                                           /\ (Param(P[k], "d", 0) % 2 = 1 \/ Ev.limit > 0)
-           expR  == [k \in 1..(Len(P) * Ev.reps) |-> RunOf(RepMajor(P, Ev.reps)[k], Ev.limit, Ev.two)]
-           expC  == [k \in 1..(Len(P) * Ev.reps) |-> RunOf(ComboMajor(P, Ev.reps)[k], Ev.limit, Ev.two)]
+           \* TLCEval: the expected results are computed once (TLC would otherwise re-evaluate RunOf at every application)
+           expP  == TLCEval([k \in 1..Len(P) |-> RunOf(P[k], Ev.limit, Ev.two)])
+           expR  == TLCEval([k \in 1..(Len(P) * Ev.reps) |-> expP[((k - 1) % Len(P)) + 1]])
+           expC  == TLCEval([k \in 1..(Len(P) * Ev.reps) |-> expP[((k - 1) \div Ev.reps) + 1]])
+           got   == TLCEval(ResOf(Ev.res))
        \* the error that reaches the caller is the one the execution raised (the fixture's own or one of the library's)
        IN IF fails
           THEN \/ Ev.out = Ev.failname /\ dev' = dev
@@ -69,14 +72,14 @@ TrBatchRun ==
                \* known finding F7: with several processes a StopIteration raised by an execution ends the collecting loop -
                \* no error reaches the caller, the results collected so far are returned
                \/ /\ Ev.failname = "StopIteration" /\ Ev.procs > 1 /\ Ev.out = "ok"
-                  /\ SubBag(ResOf(Ev.res), expR) /\ Len(Ev.res) < Len(expR)
+                  /\ SubBag(got, expR) /\ Len(Ev.res) < Len(expR)
                   /\ dev' = dev \cup {"F7"}
           ELSE /\ dev' = dev
                /\ Ev.out = "ok"
                \* one name: the bare records; a list of names (also of one): records by name
                /\ \A k \in 1..Len(Ev.shapes) : Ev.shapes[k] = (IF Ev.sel = "str" THEN "list" ELSE "dict")
-               /\ IF Ev.procs = 1 THEN ResOf(Ev.res) = expR \/ ResOf(Ev.res) = expC
-                  ELSE SameBag(ResOf(Ev.res), expR)
+               /\ IF Ev.procs = 1 THEN got = expR \/ got = expC
+                  ELSE SameBag(got, expR)
 
 \* ---- grid_search on the fixture model -----------------------------------------------------------------
 TrGridSearch ==
